@@ -232,7 +232,7 @@ fn cmd_run(inp: &str, outp: &str) {
         item::TRACK.store(job.track != 0, std::sync::atomic::Ordering::SeqCst);
         item::tok_reset();
         let sched_on = job.mode != "free";
-        sched::begin_program(sched_on, job.sched.clone(), job.seed, job.sticky, job.logcalls != 0);
+        sched::begin_program(sched_on, job.sched.clone(), job.seed, job.sticky, job.logcalls != 0, job.mode == "hold");
         let (pre, order) = prebuild(&job.p);
         let mut pjson = serde_json::to_value(&job.p).expect("ser");
         if let Some(o) = &order {
